@@ -244,7 +244,7 @@ class Check(PropertyCheck):
                    "all discharged on this run (obligations/discharged); (2) exploration -- the real ThreadsafeProxy/EventLoopThread with real "
                    "OS threads, every method kind x caller loop x owner-loop state x burst size (evaluations), thread identity recorded inside "
                    "the wrapped method; thread scheduling is not controlled and the 'stopping' owner state has no model counterpart")
-    gen_files = []
+    gen_files = ["GenThreadFn"]
     model_imports = ["model.Proxy"]
     run_expr = "run_proxy_case"
     case_type = "(bool * bool * bool * bool * (N * N))"
